@@ -1224,7 +1224,7 @@ class Index:
                 )
                 sha1_writer.close()
         except:
-            f.close()
+            f.abort()
             raise
 
     def read(self) -> None:
